@@ -144,7 +144,7 @@ def evaluate(inp):
     try:
         exp_nodes, exp_edges = expected_graph(tokens)
     except G.NotSimple:
-        return Verdict(skip=True)
+        return Verdict(skip=True, outcome='not-a-simple-graph')
     nontrivial = len(exp_nodes) >= 2 and any(t[0] in ('b', 'r', '(') for t in tokens)
     expected = {'nodes': exp_nodes, 'edges': sorted(exp_edges.items())}
     try:
